@@ -109,10 +109,11 @@ Definition check_document (c : cfg) (tol : Qc) (tree : qnode) (obs : option (lis
       code tie (Nat.eqb (length o) (count_rendered refl)) (mask (map (ref_elem_ok tol o) refl))
   end.
 
-Definition check_from_group (c : cfg) (tol : Qc) (tree : qnode) (target : position)
+Definition check_from_group (c : cfg) (recursive : bool) (tol : Qc) (tree : qnode) (target : position)
            (obs : option (list obs_entry)) : nat :=
-  let tie := tie_entries tol (doc_paths_from_group N c tree target) obs in
-  match ref_from_group N tree target with
+  let tie := tie_entries tol (if recursive then doc_paths_from_group N c tree target
+                              else doc_paths_from_group_nr N c tree target) obs in
+  match (if recursive then ref_from_group N tree target else ref_from_group_nr N tree target) with
   | None => code tie true 0
   | Some outs =>
       let refl := map (ref_entry N) outs in
@@ -214,6 +215,7 @@ Definition check_sax (c : cfg) (want_mat : bool) (tol : Qc) (tree : qnode)
 Inductive obs :=
 | ODocument (o : option (list obs_entry))
 | OGroup (target : position) (o : option (list obs_entry))
+| OGroupNR (target : position) (o : option (list obs_entry))    (* recursive=False *)
 | OSvg2paths (o : option (list obs_plain))
 | OSax (p : option (list (nat * list qseg * option qmat))) (f : option (list obs_plain))
 | OSaxMat (p : option (list (nat * list qseg * option qmat))).
@@ -223,11 +225,36 @@ Definition check_case (c : cfg) (x : Qc * qnode * obs) : nat :=
   let '(tol, tree, o) := x in
   match o with
   | ODocument x => check_document c tol tree x
-  | OGroup t x => check_from_group c tol tree t x
+  | OGroup t x => check_from_group c true tol tree t x
+  | OGroupNR t x => check_from_group c false tol tree t x
   | OSvg2paths x => check_svg2paths c tol tree x
   | OSax p f => check_sax c false tol tree p f
   | OSaxMat p => check_sax c true tol tree p None
   end.
+
+(* SaxDocument load -> save (generate_dom) -> reload, used by the C18 harness:
+   [recorded] the matrix SaxDocument holds for a path, [written] the numbers
+   found in transform="matrix( ... )" of the saved file (None: no attribute,
+   which generate_dom does for the identity), [reloaded] the matrix after
+   reading the saved file again.  1: written numbers differ from the model of
+   generate_dom; 2: the written transform does not mean the recorded matrix
+   (SVG 1.1 7.6); 4: the reloaded matrix differs *)
+Definition check_sax_dom (tol : Qc) (x : option qmat * option (list Qc) * option qmat) : nat :=
+  let '(recorded, written, reloaded) := x in
+  let M := odefm N recorded in
+  let model := if is_identity M then None else Some (sax_dom_matrix M) in
+  let b1 := match model, written with
+            | None, None => true
+            | Some l, Some l' => lclose (qclose tol) l l'
+            | _, _ => false
+            end in
+  let b2 := match written with
+            | None => mat_close tol M (mI N)
+            | Some [a; b; c; d; e; f] => mat_close tol (titem_spec N (TMatrix a b c d e f)) M
+            | Some _ => false
+            end in
+  let b3 := mat_close tol (odefm N reloaded) M in
+  ((if b1 then 0 else 1) + (if b2 then 0 else 2) + (if b3 then 0 else 4))%nat.
 
 (* constructors the harness writes *)
 Definition mk_attrs := @mkAttrs Qc.
